@@ -447,6 +447,9 @@ type pools struct {
 	bigOuter, bigInner []*shp
 	// rings with 40-100 vertices (and densified to >= 64 positions, and as holes) x coarse-grid partners
 	bigRing, bigPartner []*shp
+	// triangles with long slanted edges x shapes touching the hypotenuse at lattice points
+	slantTri  []*shp
+	slantPair [][2]*shp
 	desc             map[string]any
 }
 
@@ -478,6 +481,8 @@ func buildPools(thorough bool) *pools {
 	p.holed2A, p.holed2B = poolHoled2(idxCfgs[2].Opts)
 	p.bigOuter, p.bigInner = poolBigInner(idxCfgs[2].Opts)
 	p.bigRing, p.bigPartner = bigRingShapes(idxCfgs[2].Opts), bigRingPartners()
+	p.slantTri, p.slantPair = slantPairs()
+	p.desc["slanted_triangle_pairs"] = len(p.slantPair)
 	p.desc["rings_with_40_to_100_vertices"] = len(p.bigRing)
 	p.desc["big_ring_partners"] = len(p.bigPartner)
 	p.desc["outers_for_16_position_inners"] = len(p.bigOuter)
@@ -536,4 +541,5 @@ func allPairs(r *rt.Run, p *pools, fn func(a, b *shp, w *rt.Worker)) {
 	forPairs(r, p.bigRing, p.bigPartner, false, fn)
 	forPairs(r, p.bigRing, p.bigInner, false, fn)
 	forPairs(r, p.bigRing, p.bigRing, true, fn)
+	r.ParFor(len(p.slantPair), func(i int, w *rt.Worker) { fn(p.slantPair[i][0], p.slantPair[i][1], w) })
 }
